@@ -268,7 +268,8 @@ def _harness_innermost(tb):
 _SHAPE_MARKS = ("not aligned", "could not be broadcast", "operands could not be broadcast", "shape mismatch",
                 "setting an array element with a sequence", "is out of bounds for axis", "index out of range",
                 "too many indices", "not enough values to unpack", "too many values to unpack", "inhomogeneous shape",
-                "all the input array dimensions", "cannot reshape array")
+                "all the input array dimensions", "cannot reshape array", "len() of unsized object", "iteration over a 0-d array",
+                "invalid index to scalar variable", "0-dimensional", "object of type 'numpy.float64' has no len", "is not subscriptable")
 
 
 def _shape_error(et, ev):
